@@ -136,6 +136,21 @@ func init() {
 					out = append(out[:pos], append([]interface{}{extra}, out[pos:]...)...)
 					return out
 				}
+				// an IRI, then a short and a detailed copy of one object (the same id and type, fewer and more
+				// properties), in every order: a list equals itself whatever the order of its members
+				if i%9 == 0 {
+					id := cfg.nextID("copies")
+					stub := T{"t": "Object", "ptr": true, "f": T{"ID": T{"s": id}, "Type": T{"s": "Note"}}}
+					full := T{"t": "Object", "ptr": true, "f": T{"ID": T{"s": id}, "Type": T{"s": "Note"}, "Name": T{"nlv": []interface{}{[]interface{}{"-", "detailed"}}},
+						"Summary": T{"nlv": []interface{}{[]interface{}{"en", "more"}}}}}
+					iri := T{"iri": cfg.nextID("first")}
+					for _, l := range [][]interface{}{{iri, stub, full}, {iri, full, stub}, {stub, full, iri}, {stub, iri, full}, {full, stub, iri}, {stub, full}, {iri, stub, full, T{"iri": cfg.nextID("last")}}} {
+						lt := T{"items": l, "ptr": false}
+						c09Emit(c, c09Case{A: lt, B: cloneTree(lt), Want: "true", Why: "reflexive/short-and-detailed-copies"})
+						holder := T{"t": "Object", "ptr": true, "f": T{"ID": T{"s": cfg.nextID("holder")}, "Type": T{"s": "Note"}, "Tag": T{"list": l}}}
+						c09Emit(c, c09Case{A: holder, B: cloneTree(holder), Want: "true", Why: "reflexive/short-and-detailed-copies"})
+					}
+				}
 				y := cloneTree(x)
 				done := false
 				if mt, ok := y.(T); ok {
@@ -185,7 +200,9 @@ func init() {
 				// ids of equal length that differ in one byte that is not a letter (the pairs a careless case fold
 				// would identify: @ `, [ {, ] }, ^ ~), in the path and in the query
 				if i%4 == 0 {
-					for _, pr := range [][2]string{{"/@alice", "/`alice"}, {"/objects/[1]", "/objects/{1}"}, {"?q=a^b", "?q=a~b"}, {"/x@y", "/x`y"}} {
+					for _, pr := range [][2]string{{"/@alice", "/`alice"}, {"/objects/[1]", "/objects/{1}"}, {"?q=a^b", "?q=a~b"}, {"/x@y", "/x`y"},
+						// one key given twice, the values split differently (a value may hold a comma)
+						{"?tag=a,b&tag=c", "?tag=a&tag=b,c"}, {"?t=x&t=y,z", "?t=x,y&t=z"}} {
 						a, b := cloneTree(x).(T), cloneTree(x).(T)
 						a["f"].(T)["ID"] = T{"s": id["s"].(string) + pr[0]}
 						b["f"].(T)["ID"] = T{"s": id["s"].(string) + pr[1]}
